@@ -50,3 +50,37 @@ def gen_byte_tables():
         names.append("tbl" + nm)
     out += "def all : List Table := [%s]\n\nend XV.Gen.ByteTables\n" % ", ".join(names)
     return out
+
+
+# ------------------------------------------------------------------ encoding recogniser prefixes
+@translate.register("Recognizer")
+def gen_recognizer():
+    rel = "framework/XMLRecognizer.cpp"
+    t = re.sub(r"\(\s*char\s*\)", "", src(rel))
+    out = HEADER + "namespace XV.Gen.Recognizer\n\n"
+    for nm, ln in (("fgASCIIPre", "fgASCIIPreLen"), ("fgEBCDICPre", "fgEBCDICPreLen"), ("fgUTF16BPre", "fgUTF16PreLen"),
+                   ("fgUTF16LPre", "fgUTF16PreLen"), ("fgUCS4BPre", "fgUCS4PreLen"), ("fgUCS4LPre", "fgUCS4PreLen"),
+                   ("fgUTF8BOM", "fgUTF8BOMLen")):
+        v = array_init(t, nm, rel)
+        m = re.search(r"\b%s\s*=\s*(\d+)\s*;" % ln, strip_c_comments(t))
+        if not m:
+            raise TranslateError("%s not found in %s" % (ln, rel))
+        if int(m.group(1)) != len(v):
+            raise TranslateError("%s = %s but %s has %d bytes" % (ln, m.group(1), nm, len(v)))
+        out += lean_list(nm, v) + "\n"
+    h = strip_c_comments(src("framework/XMLRecognizer.hpp"))
+    m = re.search(r"enum\s+Encodings\s*\{(.*?)\}", h, re.S)
+    if not m:
+        raise TranslateError("enum Encodings not found")
+    names = []
+    for part in m.group(1).split(","):
+        part = part.strip()
+        mm = re.match(r"(\w+)\s*=\s*(\d+)$", part)
+        if mm:
+            names.append((mm.group(1), int(mm.group(2))))
+    want = ["EBCDIC", "UCS_4B", "UCS_4L", "US_ASCII", "UTF_8", "UTF_16B", "UTF_16L", "XERCES_XMLCH"]
+    got = [n for n, v in names if n in want]
+    if got != want or [v for n, v in names if n in want] != list(range(8)):
+        raise TranslateError("enum Encodings changed: %r" % names)
+    out += "end XV.Gen.Recognizer\n"
+    return out
